@@ -374,8 +374,6 @@ func TestC05_KeyBufferReuse(t *testing.T) {
 		blk := gen.BytesN(16).Draw(t, "block")
 		var keys [][]byte
 		var objs []cipher.Block
-		var k2wiped [16]byte
-		_ = k2wiped
 		for i := 0; i < n; i++ {
 			k := gen.BytesN(16).Draw(t, "key")
 			if i > 0 && rapid.Bool().Draw(t, "onebit") {
@@ -423,7 +421,6 @@ func TestC05_KeyBufferReuse(t *testing.T) {
 				for j := range buf {
 					buf[j] = 0xEE
 				}
-				copy(k2wiped[:], buf)
 				R.Class("key_buffer_wiped_before_first_use")
 			}
 			// every object made so far, including those whose key buffer has since been overwritten
